@@ -146,7 +146,7 @@ ReadyChecks(ln, neweps) ==
   LET refusedNow == ln.op = "s" /\ ln.ret = -1 /\ ln.err \in {EAGAIN, EMSGSIZE, EINVAL}
       rtag(i) == IF refusedNow /\ i = ln.e THEN "C03.trace" ELSE "MM"
       one(i) ==
-        IF ln.rd[i] = -1 \/ ln.kr[i] = -1 \/ neweps[i].l1m = "logged" THEN <<>>
+        IF ln.rd[i] = -1 \/ ln.kr[i] = -1 \/ (neweps[i].l1m = "logged" /\ ~neweps[i].rk) THEN <<>>
         ELSE LET exp == Readable(neweps[i], ln.kr[i])
                  obs == ln.rd[i] = 1
                  quiet == neweps[1].sbuf = 0 /\ neweps[2].sbuf = 0 /\ ln.av[i] = 0
@@ -191,9 +191,25 @@ Reset(ln) ==
 
 Keep == UNCHANGED <<tp, raw>>
 
+\* TLS: what the SSL_read / SSL_write calls of this API call left behind (process_ssl_event), then btls' update
+SslNext(ln, ep) ==
+  IF ln.ssl[1] = 0 THEN ep
+  ELSE LET c == IF ln.ssl[2] = 1 THEN RECEIVABLE ELSE SENDABLE IN
+       IF ln.ssl[3] = 2 THEN [ep EXCEPT !.sc = c, !.sw = RECEIVABLE]
+       ELSE IF ln.ssl[3] = 3 THEN [ep EXCEPT !.sc = c, !.sw = SENDABLE]
+       ELSE [ep EXCEPT !.sc = 0, !.sw = 0]
+Upd(ln, ep) ==
+  IF ep.l1m = "logged"
+  THEN (IF ln.ssl[4] = -1 THEN [ep EXCEPT !.rk = FALSE]
+        ELSE UpdateTls([SslNext(ln, ep) EXCEPT !.rk = TRUE], ln.ssl[4] = 1))
+  ELSE Update(ep)
+
+\* after a blocking-mode call the SSL state is not logged: readiness of a TLS endpoint is not predicted until its next call
+UpdB(ep) == IF ep.l1m = "logged" THEN [ep EXCEPT !.rk = FALSE] ELSE Update(ep)
+
 \* apply a model result; cs = checks of the model part for this step
 Apply(ln, e, newep, newframes, newnrcv, hcs, mcs) ==
-  LET ne == [eps EXCEPT ![e] = Update(newep)]
+  LET ne == [eps EXCEPT ![e] = Upd(ln, newep)]
       all == hcs \o (IF mm THEN <<>> ELSE mcs \o ReadyChecks(ln, ne))
       bad == IsMM(all) \/ \E i \in 1..Len(all) : ~all[i].c /\ all[i].t # "MM" /\ i > Len(hcs)
   IN /\ Report(ln, all)
@@ -380,7 +396,7 @@ StepBlkSend1(ln) ==
       \* mi = 1 on a failed blocking send: the peer had already been handed this very message
       all == hcs \o <<Chk(~(ln.ret = -1 /\ ln.mi = 1), "C03.delivered_failed", 0, ln.mi)>> \o (IF mm THEN <<>> ELSE mcs)
   IN /\ Report(ln, all)
-     /\ eps' = [eps EXCEPT ![e] = IF judged /\ ~mm THEN Update(CondFromEm(res.ep, ln.em[e])) ELSE @]
+     /\ eps' = [eps EXCEPT ![e] = IF judged /\ ~mm THEN UpdB(CondFromEm(res.ep, ln.em[e])) ELSE @]
      /\ hist' = [hist EXCEPT ![e] = IF ln.ret = -2 THEN @ ELSE HistNext(ls, e)]
      \* a blocking send that failed with the connection, was interrupted or hung: the model part stops here
      /\ mm' = (mm \/ ~judged \/ IsMM(all) \/ \E i \in 1..Len(all) : ~all[i].c /\ i > Len(hcs) + 1)
@@ -418,7 +434,7 @@ StepBlkRecv1(ln) ==
                   \o CntChecks(ln, e, res, FALSE)
       all == hcs \o (IF mm THEN <<>> ELSE mcs)
   IN /\ Report(ln, all)
-     /\ eps' = [eps EXCEPT ![e] = IF ln.ret = -2 \/ mm THEN @ ELSE Update(CondFromEm(res.ep, ln.em[e]))]
+     /\ eps' = [eps EXCEPT ![e] = IF ln.ret = -2 \/ mm THEN @ ELSE UpdB(CondFromEm(res.ep, ln.em[e]))]
      /\ nrcv' = (IF ln.ret = -2 \/ mm THEN nrcv ELSE nn)
      /\ hist' = [hist EXCEPT ![e] = IF ln.ret = -2 THEN @ ELSE HistNext(lr, e)]
      /\ mm' = (mm \/ ln.ret = -2 \/ ln.rty = 1 \/ IsMM(all) \/ \E i \in 1..Len(all) : ~all[i].c /\ i > Len(hcs))
